@@ -286,7 +286,8 @@ def C12(ctx):
     S.c12_r2(soft_if(ctx, d_doc, "C12.R7"), f)
     S.c12_r3(ctx, f)
     S.c12_r4(ctx, f)
-    S.c12_r5(ctx, f)
+    d_col = S.c12_r8(ctx, f)
+    S.c12_r5(soft_if(ctx, d_col, "C12.R8"), f)
     S.c12_r6(soft_if(ctx, d_doc, "C12.R7"), f)
     S.c12_t1(ctx, f)
     return dict(
@@ -301,6 +302,7 @@ def C13(ctx):
     I.c13_t1(ctx, f)
     I.c13_r2(ctx, f)
     d_doc = G.c12_r7(ctx, f)
+    S.c12_r8(ctx, f)
     S.c12_r4(ctx, f)
     S.c12_r6(soft_if(ctx, d_doc, "C12.R7"), f)
     return dict(
